@@ -187,7 +187,7 @@ class Check:
         self.extra = {}
         self.theorems = []
         os.makedirs(BUILD, exist_ok=True)
-        self.work = os.path.join(BUILD, "work", pid)
+        self.work = os.path.join(BUILD, "work", repo_tag(), pid)
         os.makedirs(self.work, exist_ok=True)
 
     # ---------------------------------------------------------------- logging
@@ -279,11 +279,10 @@ class Check:
     # ---------------------------------------------------------------- Go harness
     def go_build(self, cmd):
         t = time.time()
-        os.makedirs(os.path.join(BUILD, "bin"), exist_ok=True)
         with Lock("gomod"):
             ensure_harness_module()
-        out_bin = os.path.join(BUILD, "bin", cmd)
-        rc, out = sh(["go", "build", "-tags", "verif", "-o", out_bin, "./cmd/" + cmd], cwd=HARNESS, env=go_env(), timeout=1200)
+        out_bin = bin_path(cmd)
+        rc, out = sh(["go", "build", "-modfile=" + modfile(), "-tags", "verif", "-o", out_bin, "./cmd/" + cmd], cwd=HARNESS, env=go_env(), timeout=1200)
         self.log("go build %s rc=%d (%.1fs)" % (cmd, rc, time.time() - t))
         if rc != 0:
             self.log(out[-3000:])
@@ -295,17 +294,17 @@ class Check:
         if env_extra:
             e.update(env_extra)
         t = time.time()
-        rc, out = sh([os.path.join(BUILD, "bin", cmd)] + [str(a) for a in args], cwd=self.work, env=e, timeout=timeout, input=input)
+        rc, out = sh([bin_path(cmd)] + [str(a) for a in args], cwd=self.work, env=e, timeout=timeout, input=input)
         self.log("run %s %s rc=%d (%.1fs)" % (cmd, " ".join(str(a) for a in args)[:120], rc, time.time() - t))
         return rc, out
 
     # ---------------------------------------------------------------- findings
     def known_findings(self):
         out = {}
-        p = os.path.join(VERIF, "KNOWN_FINDINGS.txt")
-        if not os.path.exists(p):
-            return out
-        for ln in open(p):
+        lines = []
+        for p in sorted(glob.glob(os.path.join(VERIF, "findings.d", "*.txt"))):
+            lines += open(p).read().splitlines()
+        for ln in lines:
             ln = ln.strip()
             if not ln.startswith("finding:"):
                 continue
@@ -320,7 +319,7 @@ class Check:
             print("KNOWN-FINDING: property=%s %s: %s" % (self.pid, fid, what), flush=True)
 
     def violation(self, replay_obj, no_input=False):
-        d = os.path.join(VERIF, "replays", self.pid)
+        d = os.path.join(VERIF, "replays", self.pid) if REPO == "/repo" else os.path.join(BUILD, "replays", repo_tag(), self.pid)
         os.makedirs(d, exist_ok=True)
         blob = json.dumps(replay_obj, indent=1, sort_keys=True, default=str)
         h = hashlib.sha1(blob.encode()).hexdigest()[:12]
@@ -359,8 +358,9 @@ class Check:
             "coverage": cov, "assumptions": self.assumptions + self.trusted,
             "wall_s": round(time.time() - self.t0, 2), "violations": len(self.violations),
         }
-        os.makedirs(os.path.join(VERIF, "evidence"), exist_ok=True)
-        with open(os.path.join(VERIF, "evidence", self.pid + ".json"), "w") as f:
+        evdir = os.path.join(VERIF, "evidence") if REPO == "/repo" else os.path.join(BUILD, "evidence", repo_tag())
+        os.makedirs(evdir, exist_ok=True)
+        with open(os.path.join(evdir, self.pid + ".json"), "w") as f:
             json.dump(ev, f, indent=1, sort_keys=True, default=str)
             f.write("\n")
         if self.violations:
@@ -371,6 +371,22 @@ class Check:
 
 
 # ---------------------------------------------------------------------- harness module
+def repo_tag():
+    return "main" if REPO == "/repo" else hashlib.sha1(REPO.encode()).hexdigest()[:8]
+
+
+def modfile():
+    """the real go.mod lives outside the harness directory (go build -modfile=...), one per /repo location,
+    so that VERIF_REPO=<scratch worktree> runs do not disturb runs against /repo itself"""
+    return os.path.join(BUILD, "mod", repo_tag(), "go.mod")
+
+
+def bin_path(cmd):
+    d = os.path.join(BUILD, "bin", repo_tag())
+    os.makedirs(d, exist_ok=True)
+    return os.path.join(d, cmd)
+
+
 def ensure_harness_module():
     """harness/go.mod is derived from /repo/go.mod (replace block + go.sum) so that it builds offline."""
     gm = open(os.path.join(REPO, "go.mod")).read()
@@ -382,11 +398,12 @@ def ensure_harness_module():
     reqs = "\n".join(re.findall(r"^require \(.*?^\)", gm, re.S | re.M))
     txt = "module verif/harness\n\ngo %s\n\n%s\nrequire github.com/metrico/qryn v0.0.0\n\n%s\n\nreplace github.com/metrico/qryn => %s\n\nreplace (%s)\n" % (
         gover, ("toolchain " + tc.group(1)) if tc else "", reqs, REPO, repl)
-    p = os.path.join(HARNESS, "go.mod")
+    p = modfile()
+    os.makedirs(os.path.dirname(p), exist_ok=True)
     if not os.path.exists(p) or open(p).read() != txt:
         open(p, "w").write(txt)
     src = open(os.path.join(REPO, "go.sum")).read()
-    q = os.path.join(HARNESS, "go.sum")
+    q = p[:-4] + ".sum"
     if not os.path.exists(q) or open(q).read() != src:
         open(q, "w").write(src)
 
